@@ -144,6 +144,16 @@ class Poly:
     def __repr__(self):
         return "Poly" + self.key()
 
+    def subst(self, mapping):
+        """Replace atoms by polynomials: {atom name: Poly}.  Exponents may be negative / symbolic (Poly.power handles them)."""
+        out = Poly.const(0)
+        for mono, c in self.terms.items():
+            t = Poly.const(c)
+            for atom, ex in mono:
+                t = t * (mapping[atom] if atom in mapping else Poly.atom(atom)).power(ex)
+            out = out + t
+        return out
+
     def atoms(self):
         out = set()
         for k in self.terms:
